@@ -18,6 +18,7 @@ from .. import pool as PL
 from .. import poolreg as R
 from ..core import blit, err_class, natlit, pmap
 from ..translate import labels as TL
+from ..repo_root import REPO
 
 NAN = float("nan")
 ENC = [
@@ -156,7 +157,7 @@ def run(ctx):
         esc = []
         for ei, E in enumerate(entries):
             try:
-                src = os.path.relpath(inspect.getsourcefile(type(E.make([0, 1], 0))), "/repo")
+                src = os.path.relpath(inspect.getsourcefile(type(E.make([0, 1], 0))), REPO)
             except Exception:
                 continue
             if E.task == "clf" and src in implicated:
